@@ -984,6 +984,21 @@ PROPS["C17"] = {
         "Lace.C17.bp_table_sorted",
         "Lace.C17.bpRows_eq",
         "Lace.C17.two_labels_one_line",
+        "Lace.C01.parseHead_te",
+        "Lace.C01.parse_items_spans",
+        "Lace.C01.parse_tokens_spans",
+        "Lace.C01.preprocess_textRel_spans",
+        "Lace.C01.textRel_render",
+        "Lace.C01.itemsSpansOf_ESpans",
+        "Lace.C01.slice_itemsStmtSpans",
+        "Lace.C17.spans_render",
+        "Lace.C17.span_text_eq_statement_render",
+        "Lace.C17.span_text_eq_statement_index",
+        "Lace.C17.spans_length_render",
+        "Lace.C17.stmtText_render",
+        "Lace.C17.assembly_shows_statement_text",
+        "Lace.C17.span_text_eq_statement_wf",
+        "Lace.C17.span_text_eq_statement_text_holds",
     ],
     "compare": cmp_default,
     "classify": src_classify,
@@ -1011,7 +1026,7 @@ PROPS["C17"] = {
     ],
     "assumptions": [
         "labels are used as locations only when the command grammar can name them (I14): `b+1`, `o-3`, `x+2` are integers",
-        "no comment between a data directive and its operand (the preprocessor does not skip comments there)",
+        "the C17 generator writes no comment between a data directive and its operand (the theorem and the C01 generator cover it)",
         "ESC characters in statement text are not generated (minimal mode strips ANSI sequences)",
         "break list (normal mode) is compared after removing ESC [ ... final-byte sequences from both sides: the "
         "colour prefix lace's DebuggerWriter/Colored puts in front of every write is not modelled",
